@@ -307,7 +307,11 @@ func init() {
 			}
 			p := cc.e.getState(ii.pos)
 			cc.e.panicIf(fmt.Sprintf("(>= %s %s)", p, ii.n), "Iterator.Value: invalid iterator", cc.ins)
-			return []string{cc.def("itval", bytesSort(cc.e.g()), fmt.Sprintf("(select %s (select %s %s))", ii.snap, ii.keys, p))}, true
+			val := cc.def("itval", bytesSort(cc.e.g()), fmt.Sprintf("(select %s (select %s %s))", ii.snap, ii.keys, p))
+			if inv := cc.e.keyInv(ii.kv, fmt.Sprintf("(select %s %s)", ii.keys, p), val); inv != "" {
+				cc.e.r.assume(inv)
+			}
+			return []string{val}, true
 		}
 		extRules[it+"Close"] = func(cc *callCtx) ([]string, bool) { return []string{"0"}, true }
 	}
